@@ -2,7 +2,8 @@
 # run_all.sh [tier] [seed]: every check once; prints id, exit status and wall time
 TIER=${1:-quick}; SEED=${2:-1}
 cd "$(dirname "$0")/.." && mkdir -p out evidence
-for id in $(python3 -c "import json;print(' '.join(c['property_id'] for c in json.load(open('MANIFEST.json'))['checks']))"); do
+IDS=${IDS:-$(python3 -c "import json;print(' '.join(c['property_id'] for c in json.load(open('MANIFEST.json'))['checks']))")}
+for id in $IDS; do
   s=$(date +%s)
   VERIF_SEED=$SEED ./check $id --tier $TIER > out/last-$id.log 2>&1; rc=$?
   e=$(date +%s)
